@@ -288,6 +288,112 @@ def _closureflag_rule(chk, prog):
     chk.floor(rule, 2)
 
 
+EMIT_API = ("janetc_emit_s", "janetc_emit_ss", "janetc_emit_sss", "janetc_emit_si", "janetc_emit_su",
+            "janetc_emit_ssi", "janetc_emit_ssu")
+
+
+def handler_first_operand_writes(prog):
+    """Opcodes whose interpreter handler stores into its first operand slot (stack[A] / stack[D]) in the
+    current frame, plus the opcodes at which a fiber can suspend with a resumable signal (run_vm stores the
+    resume value into stack[A] of the suspended instruction when it is re-entered)."""
+    vm = VMHandlers(prog)
+    vfn = vm.fn
+    dispatch = vfn.igoto
+    out = {}
+
+    def ptransfer(st, n):
+        if n.k == "call" and n.callee == "janet_fiber_popframe":
+            return frozenset(["popped"])
+        return st
+    for lab, e in vm.handler_entry_blocks().items():
+        if not lab.startswith("label_JOP_"):
+            continue
+        op = lab[len("label_"):]
+        I, O = flow.forward(vfn, frozenset(), ptransfer, lambda a, b: a | b,
+                            edge=lambda st, blk, succ, c, t: None if succ == dispatch else st, start=e)
+        w = None
+        for b, st in I.items():
+            for x in vfn.blocks[b].elems:
+                if not st and x.k == "asg" and x.op == "=" and x.kids[0].k == "sub" and is_ref(strip_casts(x.kids[0].kids[0]), "stack"):
+                    ms = [m.rstrip("@") for m in x.kids[0].kids[1].macro_names()]
+                    if "A" in ms or "D" in ms:
+                        w = w or ("stores stack[%s] at %s" % ("A" if "A" in ms else "D", x.loc))
+                if x.k == "return" and x.kids and x.kids[0].v is None and not st:
+                    w = w or ("suspends with a resumable signal at %s (resume value lands in stack[A])" % x.loc)
+                st = ptransfer(st, x)
+        out[op] = w
+    if len(out) < 60:
+        raise AnalysisBroken("run_vm: only %d handlers analysed for operand writes" % len(out))
+    return out
+
+
+def _wrflag_rule(chk, prog):
+    """janetc_emit_<form>(c, OP, dest, ..., wr) stages operands in near registers; the staged first operand is
+    copied back to `dest` only if wr != 0.  For a destination that is not a near register (more than ~240 live
+    locals, an upvalue, a var) the flag must be set whenever OP writes its first operand: wr=0 on a writing
+    opcode loses the result.  (wr=1 on a non-writing opcode merely moves back the value that was staged.)"""
+    rule = "C02-WRFLAG"
+    chk.rule(rule, "janetc_emit_<form> is asked to write the first operand back (wr=1) whenever run_vm's handler of the opcode writes it")
+    writes = handler_first_operand_writes(prog)
+    n = 0
+    for fn in prog.all_funcs():
+        if fn.tu.name not in ("specials.c", "cfuns.c", "compile.c", "emit.c"):
+            continue
+        for c in fn.nodes:
+            if c.k != "call" or c.callee not in EMIT_API:
+                continue
+            opn = strip_casts(c.args[1])
+            wr = c.args[-1].v
+            if wr is None:
+                continue
+            ops = []
+            if opn.k == "ref" and opn.name.startswith("JOP_"):
+                ops = [opn.name]
+            elif opn.k == "cond":
+                ops = [strip_casts(k).name for k in opn.kids[1:] if strip_casts(k).k == "ref" and strip_casts(k).name.startswith("JOP_")]
+            elif opn.k == "ref" and opn.d.get("d") in ("parm", "var"):
+                # opcode handed in by the caller: take every constant any call site of this function passes
+                idx = [i for i, p in enumerate(fn.params) if p["n"] == opn.name]
+                if idx:
+                    for g in prog.all_funcs():
+                        for cc in g.nodes:
+                            if cc.k == "call" and cc.callee == fn.name and len(cc.args) > idx[0]:
+                                a = strip_casts(cc.args[idx[0]])
+                                if a.k == "ref" and a.name.startswith("JOP_"):
+                                    ops.append(a.name)
+                else:
+                    # local: constants assigned to it
+                    for x in fn.nodes:
+                        if x.k in ("asg", "vardecl"):
+                            tgt = x.kids[0].name if x.k == "asg" and is_ref(x.kids[0]) else x.name if x.k == "vardecl" else None
+                            if tgt == opn.name:
+                                for r in x.walk():
+                                    if r.k == "ref" and r.name.startswith("JOP_"):
+                                        ops.append(r.name)
+            if not ops:
+                chk.note("C02-WRFLAG: opcode of %s at %s could not be resolved" % (c.callee, c.loc))
+                continue
+            chk.analysed(fn) if n == 0 else None
+            for op in sorted(set(ops)):
+                n += 1
+                chk.instance(rule)
+                if op not in writes:
+                    raise AnalysisBroken("no interpreter handler found for %s" % op)
+                w = writes[op]
+                if bool(wr) == bool(w) and (w or not wr):
+                    chk.ok(rule, "%s: %s wr=%d (%s)" % (fn.name, op, wr, w or "handler does not write its first operand"))
+                elif w:
+                    chk.violation(rule, fn.tu.name, fn.name, "%s:wr=0" % op, c.loc,
+                                  "%s(c, %s, ...) is told not to write its first operand back (wr=0), but the handler %s: when the "
+                                  "destination is not a near register (function with more than ~240 live slots) the result stays "
+                                  "in a temporary and the program computes with a stale slot" % (c.callee, op, w))
+                else:
+                    # wr=1 on an opcode that leaves its first operand alone is only a redundant move: the staging
+                    # register was loaded from the destination just before the instruction
+                    chk.ok(rule, "%s: %s wr=1 on a non-writing opcode (redundant move back, harmless)" % (fn.name, op))
+    chk.floor(rule, 60, n)
+
+
 _run_commit_only = run
 
 
@@ -299,3 +405,6 @@ def run(chk):   # noqa
     _emitform_rule(chk, prog, types)
     _srcmap_rule(chk, prog)
     _closureflag_rule(chk, prog)
+    _wrflag_rule(chk, prog)
+    from rules import c02_fields
+    c02_fields.run(chk, prog)
